@@ -23,11 +23,12 @@ Theorem c14_security_state : forall ni use_hashed hashed,
   has_bits (s_bitmask s) (ibit "TRUST_CENTER_GLOBAL_LINK_KEY") = true.
 Proof. exact security_state. Qed.
 
-(* the admissible inputs: link-key partners distinct and no more keys than the table holds; at most
-   256 children; from v5 on the trust-centre link key is the well-known one (see c14_tclk_refuted) *)
-Definition admissible (v key_size : N) (ni : netinfo) : Prop :=
-  NoDup (map fst (link_keys ni)) /\ (List.length (link_keys ni) <= N.to_nat key_size)%nat /\
-  (List.length (known_children ni) <= 256)%nat /\ (4 < v -> tclk ni = WELL_KNOWN_TCLK).
+(* the admissible inputs ([admissible], defined in proofs/NetInfo_proofs.v): link-key partners
+   distinct and no more keys than the table holds; at most 256 children; from v5 on the trust-centre
+   link key is the well-known one (see c14_tclk_refuted):
+     admissible v key_size ni :=
+       NoDup (map fst (link_keys ni)) /\ (List.length (link_keys ni) <= N.to_nat key_size)%nat /\
+       (List.length (known_children ni) <= 256)%nat /\ (4 < v -> tclk ni = WELL_KNOWN_TCLK). *)
 
 (* every version 4..14, every admissible input: what is read back is what was written *)
 Theorem c14_roundtrip : forall v key_size ni rh, 4 <= v -> v <= 14 -> admissible v key_size ni ->
